@@ -353,6 +353,14 @@ def ev_fold(p, fold):
                 queue='q', arguments={'t': [v]}), 1).hex()]
 
 
+def ev_mid_failures(p, keep):
+    """Encodes refused and decodes failing in the middle of a (nested)
+    container, after earlier members were handled."""
+    from mc import corpus
+    corpus.disturb_mid()
+    return 'done'
+
+
 EVENTS = [
     ('construct Queue.Declare', ev_construct('commands.Queue.Declare')),
     ('construct Exchange.Declare', ev_construct('commands.Exchange.Declare')),
@@ -404,6 +412,7 @@ EVENTS = [
     # encodes that are refused part-way through
     ('marshal refused mid-way', ev_marshal_refused),
     ('marshal invalid after setattr', ev_marshal_invalid),
+    ('refused / failed mid-container operations', ev_mid_failures),
     # equal-but-distinct arguments (a memoised encoder conflates them)
     ('encode Decimal 1.0', lambda p, keep: p.encode.field_table(
         {'d': [A.D('1.0'), A.D('0')]}).hex()),
